@@ -162,13 +162,15 @@ class World:
         self.net.blacklist_mids.extend(Peer(m.keys[p]).mid for p in m.bl_peers)
         self.ref = RefGraph(m.bl_addrs, m.bl_peers)
         self.pending_ref = None
+        self.kept_sets: dict = {}
 
 
 class Model(core.BfsModel):
     def __init__(self, n_peers: int, n_addrs: int, n_services: int, seed: int, bl_addrs=(), bl_peers=(),  # noqa: ANN001
-                 observer: str | None = None) -> None:
+                 observer: str | None = None, forms: bool = False) -> None:
         self.n_peers, self.n_addrs, self.n_services, self.seed = n_peers, n_addrs, n_services, seed
         self.observer = observer
+        self.forms = forms
         self.bl_addrs, self.bl_peers = tuple(bl_addrs), tuple(bl_peers)
         self.keys = [fixtures.public_bin(i) for i in fixtures.rotate(seed, n_peers)]
         self.key_index = {k: i for i, k in enumerate(self.keys)}
@@ -180,6 +182,10 @@ class Model(core.BfsModel):
             al += [("add2", p, a) for p in P for a in (0, 1)]
         al += [("disc", p, a, s) for p in P for a in A for s in [None, *S]]
         al += [("svc", p, s) for p in P for s in S]
+        if forms:
+            # the argument of discover_services is an Iterable: also a one-shot generator, and a set object that the
+            # application keeps and passes again for other peers (one such set per service in this world)
+            al += [("svc", p, s, form) for p in P for s in S for form in ("generator", "kept-set")]
         al += [("rm", p) for p in P]
         al += [("rma", a) for a in A]
         al += [("q_addr", a) for a in A]
@@ -192,7 +198,7 @@ class Model(core.BfsModel):
     def params(self) -> dict:
         return {"peers": self.n_peers, "addresses": self.n_addrs, "services": self.n_services, "seed": self.seed,
                 "blacklisted_addresses": list(self.bl_addrs), "blacklisted_peers": list(self.bl_peers),
-                "observer": self.observer}
+                "observer": self.observer, "forms": self.forms}
 
     # helpers --------------------------------------------------------------------------------
     def home(self, p: int) -> int:
@@ -255,8 +261,15 @@ class Model(core.BfsModel):
             w.pending_ref = None
             ref.discover_address(p, {ref.cls(h): h}, a, s, bool(a % 2))
         elif kind == "svc":
-            _, p, s = ev
-            net.discover_services(self.mkpeer(p, self.home(p)), [SERVICES[s]])
+            p, s = ev[1], ev[2]
+            form = ev[3] if len(ev) > 3 else "list"
+            if form == "generator":
+                arg = (x for x in [SERVICES[s]])
+            elif form == "kept-set":
+                arg = w.kept_sets.setdefault(s, {SERVICES[s]})
+            else:
+                arg = [SERVICES[s]]
+            net.discover_services(self.mkpeer(p, self.home(p)), arg)
             ref.discover_services(p, [s])
         elif kind == "rm":
             _, p = ev
@@ -310,8 +323,10 @@ class Model(core.BfsModel):
             tuple((self.aidx(a), self.key_index.get(v.introduced_by, -1),
                    None if v.services is None else svc(v.services), v.new_style)
                   for a, v in net._all_addresses.items()),
-            tuple(sorted((self.key_index[k], tuple(sorted(svc(s) for s in v)))
+            tuple(sorted((self.key_index[k], tuple(sorted(svc(s) for s in v)),
+                          next((i for i, ks in w.kept_sets.items() if ks is v), None))    # stored set IS the caller's set
                          for k, v in net.services_per_peer.items())),
+            tuple(sorted((i, tuple(sorted(svc(s) for s in ks))) for i, ks in w.kept_sets.items())),
             tuple((self.aidx(a), self._peer_sig(x), vp.get(self.pidx(x)) is x)
                   for a, x in net.reverse_ip_lookup.items()),
             tuple((self._peer_sig(x), tuple(self.aidx(a) for a in lst)) for x, lst in net.reverse_intro_lookup.items()),
@@ -441,6 +456,7 @@ def configs(ctx: core.Ctx) -> list[tuple[Model, int]]:
             (Model(2, 2, 1, ctx.seed, observer="reenter"), 5),
             (Model(3, 2, 1, ctx.seed, observer="reenter"), 4),
             (Model(2, 2, 1, ctx.seed, observer="quiet"), 4),
+            (Model(2, 2, 2, ctx.seed, forms=True), 5),
         ]
     return [
         (Model(2, 2, 1, ctx.seed), 5),
@@ -450,6 +466,7 @@ def configs(ctx: core.Ctx) -> list[tuple[Model, int]]:
         (Model(2, 2, 1, ctx.seed, observer="raise"), 4),
         (Model(2, 2, 1, ctx.seed, observer="reenter"), 4),
         (Model(3, 2, 1, ctx.seed, observer="reenter"), 3),
+        (Model(2, 2, 2, ctx.seed, forms=True), 4),
     ]
 
 
@@ -488,7 +505,7 @@ def run(ctx: core.Ctx) -> core.Report:
 def replay(ctx: core.Ctx, data: dict) -> list:
     w = data["world"]
     m = Model(w["peers"], w["addresses"], w["services"], w["seed"], w["blacklisted_addresses"], w["blacklisted_peers"],
-              w.get("observer"))
+              w.get("observer"), w.get("forms", False))
     hist = [tuple(e) for e in data["history"]]
     world = m.initial()
     out = []
